@@ -175,7 +175,7 @@ pub fn gen(rng: &mut Rng, n: u64, tier: &str) -> Vec<T> {
                 0..=2 => {
                     let k = if stored.contains(&k) && !allow_dup_insert {
                         // pick a key that is not stored yet
-                        (0..keys + 8).find(|c| !stored.contains(c)).unwrap()
+                        (0..u32::MAX).find(|c| !stored.contains(c)).unwrap()
                     } else { k };
                     if !stored.contains(&k) { stored.push(k); }
                     ops.push(T::l(vec![T::i(0), T::n(k), dval_t(fresh(&mut next_vid))]));
